@@ -49,6 +49,10 @@ def get_splicers(fname, out):
                     begin_subtag = subtags[-1]
                     for subtag in subtags[:-1]:
                         top = top.setdefault(subtag, {})
+                        if not isinstance(top, dict):
+                            raise RuntimeError(
+                                "Tag '%s' uses a splicer name as a prefix" % tag
+                            )
                         stack.append(top)
                     #                    print("BEGIN", begin_tag)
                     save = []
@@ -69,7 +73,7 @@ def get_splicers(fname, out):
                         raise RuntimeError(
                             "Mismatched tags  '%s' '%s'", (begin_tag, end_tag)
                         )
-                    if end_tag in top:
+                    if begin_subtag in top:
                         raise RuntimeError(
                             "Tag already exists - '%s'" % begin_tag
                         )
